@@ -59,6 +59,7 @@ PROPERTY_RULES: Dict[str, List[Scoped]] = {
         _r("CLOSURE-LATE-BINDING", ("compute.reconciliation:", "utils.dynamic_programming:")),
         _r("RMQ-WINDOWS"), _r("EULER-INDEX"),
         _r("VARARGS-AS-GIVEN"),
+        _r("KIND-ENUM-BASE"),
     ],
     "C02": [
         _r("SENTINEL", S_SPFS, S_SUBSEQ), _r("COSTKEYS", S_SPFS), _r("PRUNE", S_SPFS), _r("EVENT-SIG", S_SPFS),
@@ -80,6 +81,7 @@ PROPERTY_RULES: Dict[str, List[Scoped]] = {
         _r("RMQ-WINDOWS"), _r("EULER-INDEX"),
         _r("EVAL-NO-SHORTCUT"),
         _r("VARARGS-AS-GIVEN"),
+        _r("KIND-ENUM-BASE"),
     ],
     "C03": [
         _r("READONLY-DECODE", S_USPFS), _r("COSTKEYS", S_USPFS), _r("PRUNE", S_USPFS), _r("EVENT-SIG", S_USPFS),
@@ -102,6 +104,7 @@ PROPERTY_RULES: Dict[str, List[Scoped]] = {
         _r("RMQ-WINDOWS"), _r("EULER-INDEX"),
         _r("EVAL-NO-SHORTCUT"),
         _r("VARARGS-AS-GIVEN"),
+        _r("KIND-ENUM-BASE"),
     ],
     "C04": [
         _r("DECODE-GUARD"), _r("DECODE-COMPLETE"), _r("LEAF-ANCHOR"), _r("SENTINEL"), _r("READONLY-DECODE"),
@@ -138,6 +141,7 @@ PROPERTY_RULES: Dict[str, List[Scoped]] = {
         _r("EVAL-NO-SHORTCUT"),
         _r("VARARGS-AS-GIVEN"),
         _r("GRAPH-KEYS"),
+        _r("TABLE-ENTRY-POLICIES"),
     ],
     "C06": [
         _r("MODEL-TABLE"), _r("LABEL-SIBLINGS"), _r("EVENT-EXHAUSTIVE"), _r("EVENT-TABLE"), _r("CONSERVED-SIDE"),
@@ -151,6 +155,9 @@ PROPERTY_RULES: Dict[str, List[Scoped]] = {
         _r("DICT-KEYS"),
         _r("RMQ-WINDOWS"), _r("EULER-INDEX"),
         _r("COST-OPTIONS"),
+        _r("UPDATE-PAIRING"), _r("RETENTION-GUARDS"), _r("POLARITY"), _r("LABEL-GUARD"),
+        _r("TREE-ITER-EXPLICIT", S_MODEL),
+        _r("KIND-ENUM-BASE"),
     ],
     "C07": [
         _r("LCA-PROPAGATE"), _r("TRAVERSAL", ("compute.reconciliation:reconcile_lca",)),
@@ -193,6 +200,7 @@ PROPERTY_RULES: Dict[str, List[Scoped]] = {
         _r("CLOSURE-LATE-BINDING", S_COMPUTE + S_DP),
         _r("KINDS-COMPLETE"),
         _r("UPDATE-PAIRING"), _r("RETENTION-GUARDS"), _r("POLARITY"), _r("RESULT-SCOPE"),
+        _r("EQ-BY-FIELDS"),
     ],
     "C10": [
         _r("BASE-EXT-SHARE"), _r("EVENT-SIG"), _r("COSTKEYS"), _r("SIBLING-PAIRING"), _r("READONLY-DECODE"),
@@ -230,6 +238,7 @@ PROPERTY_RULES: Dict[str, List[Scoped]] = {
         _r("IDENTITY-KEYS"), _r("EVENT-SIG"), _r("CLASS-DOMAIN"), _r("MIRROR"),
         _r("BRANCH-COMPLETE-ASSIGN"), _r("JSON-INFINITE-COSTS"), _r("MAPPING-KEYING"),
         _r("UNPACK-SPLIT"),
+        _r("WIDTH-VERBATIM"), _r("DICT-KEYS"),
     ],
     "C13": [
         _r("KIND-EXHAUSTIVE"), _r("KIND-AGREE"), _r("ONE-EVENT-NODE"), _r("ONE-ARROW"), _r("LOSS-MARKERS"),
@@ -241,6 +250,7 @@ PROPERTY_RULES: Dict[str, List[Scoped]] = {
         _r("FINITE-ARITH"),
         _r("KIND-ENUM-BASE"),
         _r("BRANCH-COMPLETE-ASSIGN", S_RENDER),
+        _r("MODEL-TABLE", ("model.reconciliation:rec/",)), _r("CONSERVED-SIDE"),
     ],
     "C14": [
         _r("SIGMA-INVARIANCE"), _r("SIGMA-CLOSURE"), _r("SOLVER-STATELESS", ("render.layout:", "utils.geometry:")),
@@ -250,6 +260,7 @@ PROPERTY_RULES: Dict[str, List[Scoped]] = {
         _r("READONLY-INPUT", S_RENDER), _r("IDENTITY-KEYS"),
         _r("GEOM-NO-ORDER"),
         _r("BRANCH-COMPLETE-ASSIGN", S_RENDER),
+        _r("COLOR-INHERIT"),
     ],
     "C15": [
         _r("TEMPLATE-BRACES"), _r("TEMPLATE-TERMINATED"), _r("PICTURE-ENV"), _r("COLOR-INTERN"),
@@ -263,6 +274,7 @@ PROPERTY_RULES: Dict[str, List[Scoped]] = {
         _r("WRAP-AFTER-ESCAPE"), _r("DRAW-COLOR-OWN"),
         _r("LABEL-LINEBREAKS"), _r("LOSS-COLOR-OWN"),
         _r("UNPACK-SPLIT", S_RENDER), _r("RECORD-FIELDS-AGREE"), _r("PARAM-NOT-REWRITTEN"),
+        _r("WRAP-FINAL-TEXT"),
     ],
     "C16": [
         _r("UPDATE-PAIRING"), _r("RETENTION-GUARDS"), _r("POLARITY"), _r("PROXY-NONE"), _r("COMBINE-PRODUCT"),
@@ -274,6 +286,7 @@ PROPERTY_RULES: Dict[str, List[Scoped]] = {
         _r("PROXY-UPDATE-GATE"),
         _r("TAG-TEST-CONSISTENT"),
         _r("VARARGS-AS-GIVEN"),
+        _r("TABLE-ENTRY-POLICIES"), _r("TABLE-KEY-OPAQUE"),
     ],
     "C17": [
         _r("DERIVED-QUERIES"), _r("EULER-INDEX"), _r("RMQ-WINDOWS"),
@@ -281,10 +294,12 @@ PROPERTY_RULES: Dict[str, List[Scoped]] = {
         _r("TREE-ITER-EXPLICIT", S_TREES),
         _r("PRIVATE-INDEX"),
         _r("NAME-AS-KEY", ("utils.trees:LowestCommonAncestor",)),
+        _r("NONE-SENTINEL-TRUTH", ("utils.range_min_query:", "utils.trees:")), _r("PROTOCOL-ONLY", ("utils.range_min_query:", "utils.trees:")), _r("OPTIONAL-CHECKED", ("utils.range_min_query:",)),
     ],
     "C18": [
         _r("BIT-ORDER"), _r("SEGMENT-MACHINE"), _r("SENTINEL", S_SUBSEQ),
         _r("SOLVER-STATELESS", S_SUBSEQ), _r("NONE-SENTINEL-TRUTH", S_SUBSEQ), _r("MEMO-KEY", S_SUBSEQ),
+        _r("PROTOCOL-ONLY", ("utils.subsequences:",)),
     ],
     "C19": [
         _r("RESTORE-PAIRING"), _r("FRESH-STARTS"), _r("INDEG-INIT"), _r("GRAPH-KEYS"), _r("READONLY-GRAPH"),
@@ -307,6 +322,7 @@ PROPERTY_RULES: Dict[str, List[Scoped]] = {
         _r("BINARY-COARSENINGS"),
         _r("TRIPLES-SOURCE"), _r("CHAINED-ASSIGN-ORDER", ("utils.disjoint_set:", "utils.trees:")),
         _r("TRIPLES-RECURSION"),
+        _r("SUPERTREE-DELEGATES"), _r("PROTOCOL-ONLY", ("utils.trees:", "utils.disjoint_set:")),
     ],
 }
 
@@ -806,6 +822,22 @@ _DECIDED_ROUND9 = {
     'C15': ['every kind of branch record treats the colour alike (RECORD-FIELDS-AGREE); get_color never replaces the colour it is asked for (PARAM-NOT-REWRITTEN); leaf names split from the right (UNPACK-SPLIT)'],
     'C16': ['update hands on the batch it was given: the vararg is never rebound or unpacked, and a cell written for the first time is created empty (VARARGS-AS-GIVEN)'],
 }
+_DECIDED_ROUND10 = {
+    'C01': ['the evaluator prices the kind that node_event assigns: the event local is bound once and no test of the evaluator reads the cost vector (EVAL-NO-SHORTCUT kind-from-node-event)'],
+    'C05': ['nothing filters the decoded solutions between the decoder and the result entry (RESULT-SCOPE); entries handed out by Table.entry carry both policies of the table (TABLE-ENTRY-POLICIES)'],
+    'C06': ['ties are recognised by exact equality in Entry.update, so the printed minimum is the cost of every written solution (UPDATE-PAIRING, RETENTION-GUARDS, POLARITY); generated labels are checked against every name of the tree (LABEL-GUARD); kind-from-node-event (EVAL-NO-SHORTCUT)'],
+    'C12': ['the wrap width reaches the wrapping routine unchanged (WIDTH-VERBATIM); conditional keys of the dictionary form read back with the matching default (DICT-KEYS)'],
+    'C13': ['the losses the evaluator counts on the conserved side of a transfer are those of the child that stays below the node (MODEL-TABLE, CONSERVED-SIDE); the state of a species is registered before its genes are handled (PLACED-IN-SPECIES state-registered-first)'],
+    'C14': ['the colour is propagated in a pre-order pass of its own, so a second computation finds nothing left to push down (COLOR-INHERIT)'],
+    'C15': ['format_synteny wraps the finished label and returns it as wrapped (WRAP-FINAL-TEXT)'],
+    'C16': ['entries handed out by Table.entry carry both policies (TABLE-ENTRY-POLICIES); a table key is one key, whatever its type (TABLE-KEY-OPAQUE)'],
+    'C17': ['an Optional value is compared with `is None`, never by truthiness (NONE-SENTINEL-TRUTH on Optional parameters); parameters annotated Sequence / Iterable are used through that protocol only (PROTOCOL-ONLY)'],
+    'C18': ['only the -1 verdict is returned before the scan of subseq_segment_dist (SEGMENT-MACHINE answer-from-the-scan); Sequence parameters used as sequences (PROTOCOL-ONLY)'],
+    'C20': ['supertree / all_supertrees hand the trees they are given to the triple decomposition and return its answer, nothing else (SUPERTREE-DELEGATES); PROTOCOL-ONLY'],
+}
+for _k10, _v10 in _DECIDED_ROUND10.items():
+    _DECIDED_ROUND9.setdefault(_k10, [])
+    _DECIDED_ROUND9[_k10] = _DECIDED_ROUND9[_k10] + _v10
 for _k9, _v9 in _DECIDED_ROUND9.items():
     _DECIDED_ROUND8.setdefault(_k9, [])
     _DECIDED_ROUND8[_k9] = _DECIDED_ROUND8[_k9] + _v9
